@@ -358,6 +358,24 @@ def py_apply_op(emu, op: list, scn: Dict[str, Any]):
             except OSError:
                 pass
         return emu
+    if kind == "timers":
+        emu._timer_enabled = bool(op[2])       # the host switches the timers off / on (as the isolating harnesses do)
+        return emu
+    if kind == "hostreset":
+        # the reset button: PCE500Emulator.reset() clears RAM, so the host loads the firmware again (a loader after
+        # reset) and lets it run from its entry; timer periods and the timers' on/off switch are configuration
+        from sc62015.pysc62015.emulator import RegisterName as R
+        emu.reset()
+        raw = emu.memory.external_memory
+        for addr, data in scn["prog"]["image"]:
+            raw[addr:addr + len(data)] = bytes(data)
+        for addr, data in scn.get("data", []):
+            raw[addr:addr + len(data)] = bytes(data)
+        for off, val in scn.get("imem", []):
+            emu.memory.write_byte(0x100000 + off, val)
+        for name, val in scn["regs"].items():
+            emu.cpu.regs.set(getattr(R, name), val)
+        return emu
     if kind == "scramble":
         from sc62015.pysc62015.emulator import RegisterName as R
         for i, v in enumerate(op[2][:14]):
